@@ -95,6 +95,8 @@ def generate(rng, tier):
             ds.append(SL.finish_dataset(d, cfg["mat"]))
         cases.append({"cfg": cfg, "datasets": ds, "desc": {"shape": "fixed " + repr(sorted(mo)), "n_datasets": 4, "options_reassigned": False,
                                                           "coincident_points": "3 to 5 per Q"}})
+        cases.append({"cfg": cfg, "datasets": ds[:1], "assign_points": True,
+                      "desc": {"shape": "fixed " + repr(sorted(mo)), "n_datasets": 1, "options_reassigned": False, "points_assigned_through_attributes": True}})
     return cases
 
 
@@ -120,6 +122,8 @@ def oracle(pystog, case, res):
     cF, dF = fy.get("Scale", 1.0), fy.get("Offset", 0.0)
     q, sq, fq = np.array(res["q"]), np.array(res["sq"]), np.array(res["fq"])
     x, y = np.array(res["pre"]["sq"][0]), np.array(res["pre"]["sq"][1])
+    if not case.get("late_window") and not np.array_equal(q, np.unique(x)):
+        return "the merged grid is not the set of distinct stored Q values (%d merged points, %d distinct stored Q; options %s)" % (len(q), len(np.unique(x)), case["desc"]["shape"])
     mean = np.array([y[x == v].mean() for v in q])
     wantF = cF * q * (aS * mean + bS - 1) + dF
     sc = 1 + np.abs(wantF) + np.abs(cF * q) * (np.abs(aS * mean) + abs(bS) + 1) + abs(dF)
@@ -133,7 +137,7 @@ def oracle(pystog, case, res):
     if np.isnan(sq).any() or np.isnan(fq).any():
         return "NaN in a stored curve"
     # merging again on the same object must store the same two curves (the formula refers to the data, not to the call count)
-    st, _ = SL.run_sequence(pystog, case["cfg"], case["datasets"])
+    st, _ = B.prepare(pystog, case)
     st.merge_data()
     st.merge_data()
     q2, s2, f2 = B.merged(st)
